@@ -183,14 +183,23 @@ def OPInv (acc : List OARow × List OERow × Nat × Nat) : Prop :=
   acc.2.2.1 = 3 + acc.1.length ∧ acc.2.2.2 = 3 + acc.2.1.length ∧
   acc.1.map (·.row) = List.range' 4 acc.1.length ∧ acc.2.1.map (·.row) = List.range' 4 acc.2.1.length
 
+theorem opStep_total (total : Rat) (acc : List OARow × List OERow × Nat × Nat) (p : OPAsset) : ∃ r, opStep total acc p = .ok r := by
+  unfold opStep
+  cases p.cost with
+  | none => exact ⟨_, rfl⟩
+  | some cost =>
+    simp only
+    split
+    · exact ⟨_, rfl⟩
+    · exact ⟨_, rfl⟩
+
 theorem foldlM_opStep_spec (total : Rat) : ∀ (per : List OPAsset) (acc r : List OARow × List OERow × Nat × Nat),
     per.foldlM (opStep total) acc = .ok r → OPInv acc →
     OPInv r ∧
     r.1.map (fun x => (x.asset, x.holder, x.bal)) = acc.1.map (fun x => (x.asset, x.holder, x.bal)) ++
-      (per.filter (·.cost.isSome)).flatMap (fun p => p.holders.map (fun h => (p.asset, h.1, h.2))) ∧
+      (per.filter (fun p => p.cost.isSome && !p.holders.isEmpty)).flatMap (fun p => p.holders.map (fun h => (p.asset, h.1, h.2))) ∧
     r.2.1.map (fun x => (x.asset, x.holder, x.acct, x.bal)) = acc.2.1.map (fun x => (x.asset, x.holder, x.acct, x.bal)) ++
-      (per.filter (·.cost.isSome)).flatMap (fun p => (opGrouped p).map (fun g => (p.asset, g.1, g.2.1, g.2.2))) ∧
-    (∀ p ∈ per, p.cost.isSome → p.holders ≠ []) := by
+      (per.filter (fun p => p.cost.isSome && !p.holders.isEmpty)).flatMap (fun p => (opGrouped p).map (fun g => (p.asset, g.1, g.2.1, g.2.2))) := by
   intro per
   induction per with
   | nil =>
@@ -211,19 +220,21 @@ theorem foldlM_opStep_spec (total : Rat) : ∀ (per : List OPAsset) (acc r : Lis
         rw [hc] at hs
         simp only [pure, Except.pure, Except.ok.injEq] at hs
         subst hs
-        obtain ⟨h1, h2, h3, h4⟩ := ih acc r h hinv
-        refine ⟨h1, ?_, ?_, ?_⟩
+        obtain ⟨h1, h2, h3⟩ := ih acc r h hinv
+        refine ⟨h1, ?_, ?_⟩
         · simpa [List.filter_cons, hc] using h2
         · simpa [List.filter_cons, hc] using h3
-        · intro q hq hqs
-          rcases List.mem_cons.mp hq with rfl | hq'
-          · simp [hc] at hqs
-          · exact h4 q hq' hqs
       | some cost =>
         rw [hc] at hs
         simp only at hs
         by_cases he : p.holders.isEmpty = true
-        · rw [if_pos he] at hs; cases hs
+        · rw [if_pos he] at hs
+          simp only [pure, Except.pure, Except.ok.injEq] at hs
+          subst hs
+          obtain ⟨h1, h2, h3⟩ := ih acc r h hinv
+          refine ⟨h1, ?_, ?_⟩
+          · simpa [List.filter_cons, hc, he] using h2
+          · simpa [List.filter_cons, hc, he] using h3
         · rw [if_neg he] at hs
           simp only [pure, Except.pure, Except.ok.injEq] at hs
           obtain ⟨i1, i2, i3, i4⟩ := hinv
@@ -241,29 +252,46 @@ theorem foldlM_opStep_spec (total : Rat) : ∀ (per : List OPAsset) (acc r : Lis
             · simp only [List.map_append, List.length_append, e1, i4, e3]
               rw [i2, show 3 + acc.2.1.length + 1 = 4 + acc.2.1.length by omega]
               exact List.range'_append_1 ..
-          obtain ⟨h1, h2, h3, h4⟩ := ih acc' r h hinv'
-          refine ⟨h1, ?_, ?_, ?_⟩
+          obtain ⟨h1, h2, h3⟩ := ih acc' r h hinv'
+          have hne : (!p.holders.isEmpty) = true := by simp [he]
+          refine ⟨h1, ?_, ?_⟩
           · rw [h2]; subst hs
-            simp only [List.map_append, a2, List.filter_cons, hc, Option.isSome_some, if_true, List.flatMap_cons, List.append_assoc]
+            simp only [List.map_append, a2, List.filter_cons, hc, Option.isSome_some, hne, Bool.and_self, if_true, List.flatMap_cons, List.append_assoc]
           · rw [h3]; subst hs
-            simp only [List.map_append, e2, List.filter_cons, hc, Option.isSome_some, if_true, List.flatMap_cons, List.append_assoc]
-          · intro q hq hqs
-            rcases List.mem_cons.mp hq with rfl | hq'
-            · intro hnil; apply he; simp [hnil]
-            · exact h4 q hq' hqs
+            simp only [List.map_append, e2, List.filter_cons, hc, Option.isSome_some, hne, Bool.and_self, if_true, List.flatMap_cons, List.append_assoc]
 
-/-- **C15 on the open-positions model — which rows the report has.** If the report is generated then, for the assets that have unsold
-    cost, in processing order: the "Asset" sheet has one row per holder of the holder dictionary (distinct holders = those with a positive
-    final balance, `opAsset_spec`), the "Asset - Exchange" sheet one row per positive (holder, account) balance carrying that balance,
-    grouped by holder; rows are numbered 4, 5, … without gaps; and every such asset has at least one positive balance. -/
+/-- **C16**: after the repair of F16 the open-positions model has no failure branch left -/
+theorem openPositions_total (holderOf : Nat → String) (cs : List Computed) : ∃ r, openPositions holderOf cs = .ok r := by
+  unfold openPositions
+  have : ∀ (per : List OPAsset) (total : Rat) (acc : List OARow × List OERow × Nat × Nat), ∃ r, per.foldlM (opStep total) acc = .ok r := by
+    intro per total
+    induction per with
+    | nil => intro acc; exact ⟨acc, rfl⟩
+    | cons p t ih =>
+      intro acc
+      obtain ⟨a', ha'⟩ := opStep_total total acc p
+      obtain ⟨r, hr⟩ := ih a'
+      exact ⟨r, by simp only [List.foldlM_cons, bind, Except.bind, ha']; exact hr⟩
+  simp only [bind, Except.bind]
+  generalize (cs.foldl (fun (t : Rat) c => c.ins.foldl (fun t tx =>
+      let sold := (lookupI tx.row c.sold).getD 0
+      let tcb := dmul tx.fiatWithFee (dsub 1 sold)
+      if gt13 tcb 0 then dadd t tcb else t) t) 0) = total
+  obtain ⟨r, hr⟩ := this (cs.map (opAsset holderOf)) total ([], [], 3, 3)
+  rw [hr]
+  exact ⟨_, rfl⟩
+
+/-- **C15 on the open-positions model — which rows the report has.** For the assets that have unsold cost and a positive balance, in
+    processing order: the "Asset" sheet has one row per holder of the holder dictionary (distinct holders = those with a positive final
+    balance, `opAsset_spec`), the "Asset - Exchange" sheet one row per positive (holder, account) balance carrying that balance, grouped by
+    holder; rows are numbered 4, 5, … without gaps. -/
 theorem openPositions_rows (holderOf : Nat → String) (cs : List Computed) (ars : List OARow) (ers : List OERow) (hs : List String)
     (h : openPositions holderOf cs = .ok (ars, ers, hs)) :
     ars.map (fun x => (x.asset, x.holder, x.bal)) =
-      ((cs.map (opAsset holderOf)).filter (·.cost.isSome)).flatMap (fun p => p.holders.map (fun h => (p.asset, h.1, h.2))) ∧
+      ((cs.map (opAsset holderOf)).filter (fun p => p.cost.isSome && !p.holders.isEmpty)).flatMap (fun p => p.holders.map (fun h => (p.asset, h.1, h.2))) ∧
     ers.map (fun x => (x.asset, x.holder, x.acct, x.bal)) =
-      ((cs.map (opAsset holderOf)).filter (·.cost.isSome)).flatMap (fun p => (opGrouped p).map (fun g => (p.asset, g.1, g.2.1, g.2.2))) ∧
-    ars.map (·.row) = List.range' 4 ars.length ∧ ers.map (·.row) = List.range' 4 ers.length ∧
-    (∀ c ∈ cs, (opAsset holderOf c).cost.isSome → posBalances holderOf c ≠ []) := by
+      ((cs.map (opAsset holderOf)).filter (fun p => p.cost.isSome && !p.holders.isEmpty)).flatMap (fun p => (opGrouped p).map (fun g => (p.asset, g.1, g.2.1, g.2.2))) ∧
+    ars.map (·.row) = List.range' 4 ars.length ∧ ers.map (·.row) = List.range' 4 ers.length := by
   unfold openPositions at h
   simp only [bind, Except.bind] at h
   split at h
@@ -271,19 +299,8 @@ theorem openPositions_rows (holderOf : Nat → String) (cs : List Computed) (ars
   · rename_i r hr
     simp only [pure, Except.pure, Except.ok.injEq, Prod.mk.injEq] at h
     obtain ⟨rfl, rfl, _⟩ := h
-    obtain ⟨⟨_, _, i3, i4⟩, h2, h3, h4⟩ := foldlM_opStep_spec _ _ _ _ hr (by simp [OPInv])
-    refine ⟨by simpa using h2, by simpa using h3, i3, i4, ?_⟩
-    intro c hc hcost
-    have hne := h4 (opAsset holderOf c) (List.mem_map.mpr ⟨c, hc, rfl⟩) hcost
-    intro hnil
-    apply hne
-    have hm := (opAsset_spec holderOf c).2.1
-    cases hh : (opAsset holderOf c).holders with
-    | nil => rfl
-    | cons x t =>
-      have := (hm x.1).mp (by rw [hh]; simp)
-      rw [hnil] at this
-      simp at this
+    obtain ⟨⟨_, _, i3, i4⟩, h2, h3⟩ := foldlM_opStep_spec _ _ _ _ hr (by simp [OPInv])
+    exact ⟨by simpa using h2, by simpa using h3, i3, i4⟩
 
 end Rp2
 
